@@ -36,6 +36,7 @@ type Case struct {
 	AllowIO   bool     `json:"allow_io"`   // false: NoExec/NoFileWrites/NoFileReads set
 	Expect    string   `json:"expect"`     // "" (anything but a crash) | "error" | "ok"
 	ExpectWhy string   `json:"expect_why"` // oracle used when Expect is set
+	ExpectOutHex string `json:"expect_out_hex"` // with Expect "ok": the exact output
 	Cuts      []int    `json:"cuts"`       // api: delivery of the input: sizes of the successive Reads (0 = a Read returning no bytes); nil = one piece
 	LastEOF   bool     `json:"last_eof"`   // api: the final Read returns its bytes together with io.EOF
 	Cfg       string   `json:"cfg"`        // api: name of a Config fixture applied last (hostile struct fields)
